@@ -8,6 +8,8 @@ import (
 	"bytes"
 	"fmt"
 	"io"
+	"io/ioutil"
+	"math"
 	"reflect"
 )
 
@@ -43,6 +45,26 @@ func NewMessage(typeCode uint8) (msg Message, err error) {
 	msgElem := reflect.TypeOf(msgType).Elem()
 	msg = reflect.New(msgElem).Interface().(Message)
 	return
+}
+
+// readBytes reads exactly n bytes from the Reader. The buffer grows with the data which was actually received instead
+// of being allocated in advance for a length chosen by the peer.
+func readBytes(r io.Reader, n uint64) ([]byte, error) {
+	if n > math.MaxInt32 {
+		return nil, fmt.Errorf("length of %d bytes exceeds the maximum of %d", n, math.MaxInt32)
+	}
+
+	var buf bytes.Buffer
+	if _, err := io.CopyN(&buf, r, int64(n)); err != nil {
+		return nil, err
+	}
+	return buf.Bytes(), nil
+}
+
+// discardBytes skips the next n bytes of the Reader.
+func discardBytes(r io.Reader, n uint64) error {
+	_, err := io.CopyN(ioutil.Discard, r, int64(n))
+	return err
 }
 
 // ReadMessage parses the next TCPCLv4 message from the Reader.
